@@ -284,6 +284,105 @@ theorem time_field_roundtrip (P : Profile) (hwf : ProfileWF P = true) (dm : DefM
   rw [hpt]
   simp
 
+theorem toSigned32_roundtrip (z : Int) (hlo : -(2147483648 : Int) ≤ z) (hhi : z < 2147483648) :
+    toSigned 32 ((toUnsigned 32 z) % 256 ^ 4) = z := by
+  simp only [toSigned, toUnsigned, Nat.reducePow, Nat.reduceSub]
+  apply ite_eq_of <;> intro h <;> omega
+
+/-- **A coordinate field, end to end** (latitude: semicircles in [-2^30, 2^30); longitude: any
+    32-bit value) -/
+theorem coord_field_roundtrip (P : Profile) (hwf : ProfileWF P = true) (dm : DefMsg) (pf : PField)
+    (msg : Msg) (ts : TsRef) (z : Int) (isLat : Bool)
+    (hgf : P.getField dm.global pf.num = some pf)
+    (hk : tcKind pf.tcode = (if isLat then .lat else .lng))
+    (hlo : (if isLat then -(1073741824 : Int) else -(2147483648 : Int)) ≤ z)
+    (hhi : z < (if isLat then (1073741824 : Int) else 2147483648)) :
+    ∃ part, writeField dm.arch pf (if isLat then .lat else .lng) (if isLat then .lat z else .lng z) = .ok part ∧
+      part.length = (fdOf pf).size ∧
+      applyField P dm true (fdOf pf) part (some msg) ts =
+        .ok (some { msg with vals := setAt msg.vals pf.sindex (if isLat then .lat z else .lng z) }) ts := by
+  obtain ⟨pm, hpm, hfw⟩ := getField_wf P hwf _ _ _ hgf
+  have facts := fieldWF_facts pm pf hfw
+  obtain ⟨k, hl, hslot⟩ := facts.slot
+  have hkind := facts.kind
+  have hz : -(2147483648 : Int) ≤ z ∧ z < 2147483648 := by
+    cases isLat <;> simp only [Bool.false_eq_true, ↓reduceIte] at hlo hhi <;> omega
+  have hrt := toSigned32_roundtrip z hz.1 hz.2
+  cases isLat with
+  | true =>
+    simp only [↓reduceIte] at hk hlo hhi ⊢
+    rw [hk] at hkind
+    obtain ⟨hpb, harr⟩ := hkind
+    have hkt : k = .lat := by
+      unfold slotOfType at hslot
+      rw [hk] at hslot
+      simp only [harr, Bool.false_eq_true, ↓reduceIte, Option.some.injEq] at hslot
+      exact hslot.symm
+    subst hkt
+    have hwf' : writeField dm.arch pf .lat (.lat z) = .ok (dm.arch.enc 4 (toUnsigned 32 z)) := by
+      unfold writeField
+      simp only [harr, Bool.not_false, ↓reduceIte]
+      simp [encodeScalar, hk]
+    have hlen := writeField_length dm.arch pm pf _ _ _ facts hslot hwf'
+    refine ⟨_, hwf', hlen, ?_⟩
+    have hps : tcBase pf.tcode ≠ Base.string := by rw [hpb]; decide
+    have hb4 : Base.size (tcBase pf.tcode) = 4 := by rw [hpb]; decide
+    have hsz : szOf pf = 4 := by rw [← hlen]; exact enc_length _ _ _
+    unfold applyField
+    simp only [fdOf, hgf, hpm, hl, hk, harr]
+    simp only [Bool.not_true, Bool.false_eq_true, ↓reduceIte, Bool.not_false]
+    have hcond : tcBase pf.tcode ≠ Base.string ∧ True ∧ Kind.lat ≠ Kind.native := ⟨hps, trivial, by simp⟩
+    rw [if_pos hcond]
+    have hpad : padTmp dm.arch (tcBase pf.tcode) (dm.arch.enc 4 (toUnsigned 32 z)) (szOf pf) (Base.size (tcBase pf.tcode)) =
+        dm.arch.enc 4 (toUnsigned 32 z) := by
+      unfold padTmp; rw [hsz, hb4]; simp
+    rw [hpad]
+    have hl4 : ¬ (dm.arch.enc 4 (toUnsigned 32 z)).length < 4 := by rw [enc_length]; omega
+    rw [if_neg hl4]
+    have htk : (dm.arch.enc 4 (toUnsigned 32 z)).take 4 = dm.arch.enc 4 (toUnsigned 32 z) := by
+      apply List.take_of_length_le
+      rw [enc_length]
+    simp only [ne_eq, not_true_eq_false, ↓reduceIte]
+    rw [htk, dec_enc, hrt]
+    have h1 : ¬ z = 2147483647 := by omega
+    have h2 : ¬ (z < -1073741824 ∨ z > 1073741823) := by omega
+    simp only [h1, h2, ↓reduceIte]
+  | false =>
+    simp only [Bool.false_eq_true, ↓reduceIte] at hk hlo hhi ⊢
+    rw [hk] at hkind
+    obtain ⟨hpb, harr⟩ := hkind
+    have hkt : k = .lng := by
+      unfold slotOfType at hslot
+      rw [hk] at hslot
+      simp only [harr, Bool.false_eq_true, ↓reduceIte, Option.some.injEq] at hslot
+      exact hslot.symm
+    subst hkt
+    have hwf' : writeField dm.arch pf .lng (.lng z) = .ok (dm.arch.enc 4 (toUnsigned 32 z)) := by
+      unfold writeField
+      simp only [harr, Bool.not_false, ↓reduceIte]
+      simp [encodeScalar, hk]
+    have hlen := writeField_length dm.arch pm pf _ _ _ facts hslot hwf'
+    refine ⟨_, hwf', hlen, ?_⟩
+    have hps : tcBase pf.tcode ≠ Base.string := by rw [hpb]; decide
+    have hb4 : Base.size (tcBase pf.tcode) = 4 := by rw [hpb]; decide
+    have hsz : szOf pf = 4 := by rw [← hlen]; exact enc_length _ _ _
+    unfold applyField
+    simp only [fdOf, hgf, hpm, hl, hk, harr]
+    simp only [Bool.not_true, Bool.false_eq_true, ↓reduceIte, Bool.not_false]
+    have hcond : tcBase pf.tcode ≠ Base.string ∧ True ∧ Kind.lng ≠ Kind.native := ⟨hps, trivial, by simp⟩
+    rw [if_pos hcond]
+    have hpad : padTmp dm.arch (tcBase pf.tcode) (dm.arch.enc 4 (toUnsigned 32 z)) (szOf pf) (Base.size (tcBase pf.tcode)) =
+        dm.arch.enc 4 (toUnsigned 32 z) := by
+      unfold padTmp; rw [hsz, hb4]; simp
+    rw [hpad]
+    have hl4 : ¬ (dm.arch.enc 4 (toUnsigned 32 z)).length < 4 := by rw [enc_length]; omega
+    rw [if_neg hl4]
+    have htk : (dm.arch.enc 4 (toUnsigned 32 z)).take 4 = dm.arch.enc 4 (toUnsigned 32 z) := by
+      apply List.take_of_length_le
+      rw [enc_length]
+    simp only [ne_eq, not_true_eq_false, ↓reduceIte]
+    rw [htk, dec_enc, hrt]
+
 /-! ### whole messages -/
 
 /-- unsigned scalar fields satisfy the per-field round-trip condition of `message_roundtrip` -/
@@ -332,9 +431,27 @@ theorem fieldRT_time (P : Profile) (hwf : ProfileWF P = true) (dm : DefMsg) (pf 
   rw [e1] at hpart; cases hpart
   exact ⟨_, e3⟩
 
+theorem fieldRT_lat (P : Profile) (hwf : ProfileWF P = true) (dm : DefMsg) (pf : PField) (z : Int)
+    (hgf : P.getField dm.global pf.num = some pf) (hk : tcKind pf.tcode = .lat)
+    (hlo : -(1073741824 : Int) ≤ z) (hhi : z < 1073741824) : FieldRT P dm pf .lat (.lat z) := by
+  intro msg ts part hpart
+  obtain ⟨part0, e1, _, e3⟩ := coord_field_roundtrip P hwf dm pf msg ts z true hgf hk hlo hhi
+  simp only [↓reduceIte] at e1 e3
+  rw [e1] at hpart; cases hpart
+  exact ⟨ts, e3⟩
+
+theorem fieldRT_lng (P : Profile) (hwf : ProfileWF P = true) (dm : DefMsg) (pf : PField) (z : Int)
+    (hgf : P.getField dm.global pf.num = some pf) (hk : tcKind pf.tcode = .lng)
+    (hlo : -(2147483648 : Int) ≤ z) (hhi : z < 2147483648) : FieldRT P dm pf .lng (.lng z) := by
+  intro msg ts part hpart
+  obtain ⟨part0, e1, _, e3⟩ := coord_field_roundtrip P hwf dm pf msg ts z false hgf hk hlo hhi
+  simp only [Bool.false_eq_true, ↓reduceIte] at e1 e3
+  rw [e1] at hpart; cases hpart
+  exact ⟨ts, e3⟩
+
 /-- **Encode then Decode returns the message that was put in** (field loop level): for any message
     of a known type that `Encode` accepts, whose valid fields are of kinds that round-trip
-    (`FieldRT`: established above for unsigned and signed scalars, strings and date_time values)
+    (`FieldRT`: established above for unsigned and signed scalars, strings, date_time values and coordinates)
     and whose other fields hold the constructor's invalid values, the decoder — reading the data
     record with the definition record that `Encode` wrote — rebuilds exactly that message. -/
 theorem message_roundtrip (P : Profile) (hwf : ProfileWF P = true) (arch : Endian) (m : Msg) (bs : Bytes)
